@@ -240,6 +240,11 @@ func c15Case(t *T) {
 			for i, n := 0, r.IntN(3); i < n; i++ {
 				extras[pick(r, []string{"q", "page", "sort by", "a&b", "ü"})] = pick(r, []string{"1", "x y", "a&b=c", "é", "", "%41", "{id}"})
 			}
+			if len(ns.Vars) > 0 && chance(r, 1, 4) {
+				// a query argument that is NAMED like one of the route's variables (no braces: it is not the variable)
+				extras[pick(r, ns.Vars)] = pick(r, []string{"99", "from-the-query", "x y", ""})
+				t.Count("roundtrip.query_argument_named_like_a_variable", 1)
+			}
 			asAny := func(s string) any {
 				// purely numeric values are handed over as numbers (the documented M is map[string]any)
 				if n, err := strconv.Atoi(s); err == nil && strconv.Itoa(n) == s {
